@@ -167,8 +167,11 @@ impl Property for C14 {
     fn id(&self) -> &'static str {
         "C14"
     }
+    fn regimes(&self) -> &'static str {
+        crate::gen::REGIMES_FAMILY
+    }
     fn rule(&self) -> String {
-        "proptest: successful single-rhs fits of the model families with nu = N-M-P in 1..60 (nu <= 10 over-sampled), weighted and unweighted, f32/f64; 8 probabilities per fit from (0.01,0.99) and from the tails down to 1e-9 and up to 1-1e-12; illegal p in {0, 1, negative, > 1, NaN, ±inf}. Oracle per sample i: radius_i = t((1+p)/2; nu) · sqrt(j_i^T Cov j_i) with the statistics' own covariance, j_i = row i of the unweighted [Phi | D_k c_hat] from the model, t from the harness' own Student-t (incomplete beta + bisection); tolerance = rounding bound of the quadratic form + 1e-4 relative (7x the measured worst case) for the quantile routine of the dependency; finite, >= 0, one entry per sample; non-decreasing in p; illegal p panics, legal p never does. Non-trivial: nu <= 60 and at least one radius compared".into()
+        "proptest: successful single-rhs fits of the model families with nu = N-M-P in 1..60 (nu <= 10 over-sampled), weighted and unweighted, f32/f64; 8 probabilities per fit from (0.01,0.99) and from the tails down to 1e-9 and up to 1-1e-12; illegal p in {0, 1, negative, > 1, NaN, ±inf}. Oracle per sample i: radius_i = t((1+p)/2; nu) · sqrt(j_i^T Cov j_i) with the statistics' own covariance, j_i = row i of the unweighted [Phi | D_k c_hat] from the model, t from the harness' own Student-t (incomplete beta + bisection); tolerance = rounding bound of the quadratic form + 1e-4 relative (7x the measured worst case) for the quantile routine of the dependency; finite, >= 0, one entry per sample; non-decreasing in p; illegal p panics, legal p never does. 1 of 32 instances has nu = 4700 (more than 4096 samples), 1 of 16 nu = 1100. Non-trivial: nu <= 60 and at least one radius compared".into()
     }
     fn assumptions(&self) -> Vec<String> {
         vec!["the quantile tolerance 1e-4 is 7x the measured accuracy of distrs::StudentsT::ppf (worst 1.2e-5 in [1e-6, 1-1e-6]); formula mistakes are >= 1e-3".into()]
